@@ -86,8 +86,12 @@ def run_unit(spec):
                 fact(f"{fp}/kafka_type-is-known-primitive", isinstance(kt, str) and kt in table, kt)
                 if isinstance(kt, str) and kt in table:
                     want = table[kt]
-                    fact(f"{fp}/kafka_type-matches-python-type", isinstance(item, type) and issubclass(item, want),
-                         f"{kt} -> {want.__name__}, declared {item}")
+                    # exact match: the nearest primitive in the annotation's MRO is the one the Kafka type names
+                    # (a subclass relation is not enough: i32 is a subclass of i64 but has another wire width)
+                    prims = set(table.values())
+                    nearest = next((c for c in getattr(item, "__mro__", ()) if c in prims), None)
+                    fact(f"{fp}/kafka_type-matches-python-type", isinstance(item, type) and nearest is want,
+                         f"{kt} -> {want.__name__}, declared {item} (nearest primitive {getattr(nearest, '__name__', None)})")
                     if nullable and not is_array:
                         fact(f"{fp}/nullable-only-with-wire-null", kt in NULLABLE_KAFKA, kt)
                     if kt == "uuid":
